@@ -9,3 +9,8 @@ CHECKS['C10'] = dict(
     text='Generated operation histories (~9k per quick run, 300k thorough) over all set/remove/item/attribute/cssText operations executed in lock-step on the library and on a 40-line reference model; all known property names enumerated for the DOM-name mapping. Exploration, not proof.',
     note='Trusted: reference model written from the property statement; value canonical forms from a fixed hand-checked table; API names vary by case and simple escapes only; normalize=False variants not exercised.',
 )
+CHECKS['C17'] = dict(
+    technique='model-based property testing (Hypothesis operation sequences vs. a reference ordered-set model) + grammar-level mutation of media queries with a must-reject oracle',
+    text='Generated histories of appendMedium/deleteMedium/item assignment/mediaText on stand-alone, @media- and @import-owned lists compared after every step with a reference model and with the reparse of the serialisation; 18 classes of malformed queries must be rejected as a whole. Exploration, not proof.',
+    note='Trusted: reference model from the statement; cssutils tokenizer used only to normalise texts; wellformed/len() not asserted; item assignment restricted to cases needing no canonicalisation (finding F17-1).',
+)
